@@ -159,8 +159,9 @@ def parseFile : Nat → Bool → List DTok → DescrAcc → Option DescrAcc
     | _ => none
 
 /-- `set_sgrammar` after parsing: one entry per name at its first position; two explicit
-different codes are an error (7); an occurrence without code makes the code implicit; implicit
-codes are the next free codes from 256 in order of appearance -/
+different codes are an error (7); an occurrence without code says nothing about the code
+(the explicit code of another occurrence, earlier or later, is the code of the terminal);
+terminals without any explicit code get the next free codes from 256 in order of appearance -/
 def dedupTerms : List STerm → List STerm → Except Nat (List STerm)
   | [], acc => .ok acc
   | t :: rest, acc =>
@@ -168,7 +169,7 @@ def dedupTerms : List STerm → List STerm → Except Nat (List STerm)
     | none => dedupTerms rest (acc ++ [t])
     | some e =>
       if t.code != -1 && e.code != -1 && e.code != t.code then .error 7
-      else if t.code == -1 then dedupTerms rest (acc.map fun x => if x.name == t.name then { x with code := -1 } else x)
+      else if e.code == -1 then dedupTerms rest (acc.map fun x => if x.name == t.name then { x with code := t.code } else x)
       else dedupTerms rest acc
 
 def nextFree (used : List Int) : Nat → Nat → Nat
